@@ -1,4 +1,4 @@
-INIT InitSubscribed
+INIT InitOpenQos2
 NEXT Next
 VIEW View
 CONSTANTS
@@ -7,9 +7,9 @@ CONSTANTS
   CfgRC = 1
   CfgCT = 3
   CfgKA = 0
-  GenApis <- Apis_C27u
-  GenGw <- Gw_C27u
-  GenMids = {9}
-  MaxEv = 10
-  MaxCalls = 7
+  GenApis <- Apis_C27q
+  GenGw <- Gw_C27q
+  GenMids = {}
+  MaxEv = 13
+  MaxCalls = 5
 INVARIANTS Prop_All TypeOK
